@@ -35,6 +35,8 @@ type extraFile struct {
 	Hex   string `json:"hex"`
 	Mode  uint32 `json:"mode"`
 	MTime int64  `json:"mtime"`
+	Nanos int64  `json:"nanos,omitempty"` // sub-second part of the modification time
+	Dir   bool   `json:"dir,omitempty"`   // a directory: created, and given this time after everything below it exists
 }
 
 type pkgDesc struct {
@@ -152,7 +154,7 @@ func (g *pkgGen) contents() files.Contents {
 		case 2:
 			add(&files.Content{Source: "src/d", Destination: d + "/share", Packager: pk(), FileInfo: fi()})
 		case 3:
-			add(&files.Content{Source: "src/d/*", Destination: "/etc/app" + fmt.Sprint(i), Type: g.pick([]string{"config", "config|noreplace", "config|missingok"}), Packager: pk(), FileInfo: fi()})
+			add(&files.Content{Source: "src/d/*", Destination: g.pick([]string{"/etc/app", "/etc/app", "/opt/conf/app", "/var/lib/cfg/app", "/usr/local/etc/app"}) + fmt.Sprint(i), Type: g.pick([]string{"config", "config|noreplace", "config|missingok"}), Packager: pk(), FileInfo: fi()})
 		case 4:
 			add(&files.Content{Destination: "/var/lib/app" + fmt.Sprint(i) + g.pick([]string{"", "/"}), Type: "dir", Packager: pk(), FileInfo: fi()})
 		case 5:
@@ -199,7 +201,10 @@ type genOut struct {
 }
 
 func scriptBytes(rng *rand.Rand, tag string) []byte {
-	switch rng.Intn(5) {
+	switch rng.Intn(6) {
+	case 4:
+		// written on another operating system: every line, the interpreter line included, ends in CR LF
+		return []byte("#!/bin/sh\r\necho " + tag + "\r\nexit 0\r\n")
 	case 0:
 		return []byte("#!/bin/sh\necho " + tag + "\n")
 	case 1:
@@ -284,6 +289,14 @@ func (g *pkgGen) config(i int) genOut {
 	}
 	if g.chance(3) {
 		c.Deb.Fields = map[string]string{"Bugs": "https://example.com/bugs", "Built-Using": "go", "Empty": ""}
+		if g.chance(2) {
+			// names other formats know as fields of their own are ordinary custom fields in a deb
+			for _, k := range []string{"Essential", "Vendor", "Tags", "Status", "Auto-Installed", "Source"} {
+				if g.chance(2) {
+					c.Deb.Fields[k] = "custom " + strings.ToLower(k)
+				}
+			}
+		}
 	}
 	if g.chance(6) {
 		c.Deb.Arch = "custom-deb-arch"
@@ -336,19 +349,49 @@ type limitedWriter struct{ buf bytes.Buffer }
 func (w *limitedWriter) Write(p []byte) (int, error) { return w.buf.Write(p) }
 
 func writeExtraFiles(fs []extraFile) {
+	defer func() {
+		for _, f := range fs {
+			if f.Dir {
+				must(os.MkdirAll(f.Path, 0o755))
+				must(os.Chtimes(f.Path, time.Unix(f.MTime, f.Nanos), time.Unix(f.MTime, f.Nanos)))
+			}
+		}
+	}()
 	for _, f := range fs {
+		if f.Dir {
+			continue
+		}
 		b, _ := hex.DecodeString(f.Hex)
 		must(os.MkdirAll(filepath.Dir(f.Path), 0o755))
 		must(os.WriteFile(f.Path, b, 0o644))
 		must(os.Chmod(f.Path, os.FileMode(f.Mode)))
-		t := time.Unix(f.MTime, 0)
+		t := time.Unix(f.MTime, f.Nanos)
 		must(os.Chtimes(f.Path, t, t))
+	}
+	// directories made on the way get a fixed time too (a tree entry packages them): the newest file's, to the second
+	dirs := map[string]int64{}
+	for _, f := range fs {
+		for d := filepath.Dir(f.Path); d != "." && d != "/" && d != "src" && d != "scripts"; d = filepath.Dir(d) {
+			if f.MTime > dirs[d] {
+				dirs[d] = f.MTime
+			}
+		}
+	}
+	for d, t := range dirs {
+		must(os.Chtimes(d, time.Unix(t, 0), time.Unix(t, 0)))
 	}
 }
 
 func removeExtraFiles(fs []extraFile) {
 	for _, f := range fs {
-		os.Remove(f.Path)
+		if !f.Dir {
+			os.Remove(f.Path)
+		}
+	}
+	for i := len(fs) - 1; i >= 0; i-- {
+		if fs[i].Dir {
+			os.Remove(fs[i].Path)
+		}
 	}
 }
 
@@ -730,6 +773,50 @@ func replayPkg(path string, w *caseWriter, st *pkgStats, extra func(*caseWriter,
 	})
 }
 
+// cacheProbes: the same configuration packaged again after the sources changed under it - a file added to a globbed
+// directory, a file rewritten in place with the same length and modification time. Whatever a build remembers of
+// an earlier one in the same process must not reach the package.
+func cacheProbes(w *caseWriter, st *pkgStats, prop string) {
+	c := baseConfig("probe")
+	c.Contents = files.Contents{
+		{Source: "src/probe/*.conf", Destination: "/etc/probe/", Type: "config"},
+		{Source: "src/probe/target.txt", Destination: "/usr/share/probe/target.txt"},
+		{Source: "src/probe", Destination: "/opt/probe/tree", Type: "tree"},
+	}
+	for _, s := range slotSetters["common"] {
+		s.set(&c, "src/probe/script.sh")
+	}
+	doc := marshalConfig(&c)
+	// sub-second parts only where the package's own consistency is judged (the payload model works in whole seconds)
+	var frac int64
+	if prop == "C03" || prop == "C04" {
+		frac = 100000000
+	}
+	mk := func(target, script string, confs ...string) []extraFile {
+		fs := []extraFile{
+			{Path: "src/probe/target.txt", Hex: hex.EncodeToString([]byte(target)), Mode: 0o644, MTime: 1650000500, Nanos: 7 * frac},
+			{Path: "src/probe/sub/early.txt", Hex: hex.EncodeToString([]byte("x")), Mode: 0o644, MTime: 1650000400, Nanos: 2 * frac},
+			{Path: "src/probe/script.sh", Hex: hex.EncodeToString([]byte(script)), Mode: 0o755, MTime: 1650000500},
+		}
+		fs = append(fs, extraFile{Path: "src/probe/sub", Dir: true, MTime: 1650000450, Nanos: 6 * frac})
+		for _, n := range confs {
+			fs = append(fs, extraFile{Path: "src/probe/" + n, Hex: hex.EncodeToString([]byte("conf " + n + "\n")), Mode: 0o644, MTime: 1650000500})
+		}
+		return fs
+	}
+	runPkgCase(w, "probe-1", pkgDesc{YAML: doc, Files: mk("target=amd64\n", "#!/bin/sh\necho one\n", "10.conf"), Formats: allFormats}, st, nil)
+	runPkgCase(w, "probe-2", pkgDesc{YAML: doc, Files: mk("target=arm64\n", "#!/bin/sh\necho two\n", "10.conf", "20.conf"), Formats: allFormats}, st, nil)
+	runPkgCase(w, "probe-3", pkgDesc{YAML: doc, Files: mk("target=riscv\n", "#!/bin/sh\necho 3!!\n", "20.conf"), Formats: allFormats}, st, nil)
+	// no package mtime: entries carry the times the file system reports, sub-second parts and all
+	// (only the package's own consistency is judged there: without a package mtime generated members carry the
+	// build time, which the payload model does not predict)
+	if prop != "C03" && prop != "C04" {
+		return
+	}
+	c.MTime = time.Time{}
+	runPkgCase(w, "probe-4-no-mtime", pkgDesc{YAML: marshalConfig(&c), Files: mk("target=amd64\n", "#!/bin/sh\necho one\n", "10.conf"), Formats: allFormats}, st, nil)
+}
+
 // cmdPkg: the generic package-level run shared by C01 C03 C04 C08 C09
 func cmdPkg(prop, tier string, seed int64, out, statsOut, replay string) {
 	_, cleanup := pkgWorkdir()
@@ -747,6 +834,7 @@ func cmdPkg(prop, tier string, seed int64, out, statsOut, replay string) {
 		if tier != "quick" {
 			n = 600
 		}
+		cacheProbes(w, st, prop)
 		switch prop {
 		case "C08":
 			genC08Matrix(w, st)
